@@ -157,8 +157,22 @@ def hyperv_file(chk: Check):
     oks = False
     if sorts:
         kws = {k.arg: k.value for k in sorts[0].keywords}
-        oks = "reverse" in kws and isinstance(kws["reverse"], ast.Constant) and kws["reverse"].value is True and "key" in kws \
-            and isinstance(kws["key"], ast.Lambda) and ast.unparse(kws["key"].body).endswith(".sequence_number")
+        def by_sequence_number(k):
+            """the sort key reads .sequence_number of its argument: a lambda, a named one-line function, or attrgetter"""
+            if isinstance(k, ast.Lambda) and len(k.args.args) == 1:
+                return isinstance(k.body, ast.Attribute) and k.body.attr == "sequence_number" and isinstance(k.body.value, ast.Name) and k.body.value.id == k.args.args[0].arg
+            if isinstance(k, ast.Name):
+                mi_ = chk.prog.info(REL)
+                for fn in mi_.mod.tree.body:
+                    if isinstance(fn, ast.FunctionDef) and fn.name == k.id and len(fn.args.args) == 1:
+                        body = [x for x in fn.body if not (isinstance(x, ast.Expr) and isinstance(x.value, ast.Constant))]
+                        return len(body) == 1 and isinstance(body[0], ast.Return) and by_sequence_number(
+                            ast.Lambda(args=fn.args, body=body[0].value))
+                return False
+            if isinstance(k, ast.Call) and ast.unparse(k.func).endswith("attrgetter") and len(k.args) == 1:
+                return isinstance(k.args[0], ast.Constant) and k.args[0].value == "sequence_number"
+            return False
+        oks = "reverse" in kws and isinstance(kws["reverse"], ast.Constant) and kws["reverse"].value is True and "key" in kws and by_sequence_number(kws["key"])
     chk.decide(oks, "K-DISPATCH", "key-tables-by-sequence-number", sorts[0] if sorts else inner,
                "key tables sharing an index are ordered by sequence number, highest first")
     # the key under which a table is registered is its own index: self.key_tables[kt.index] or .setdefault(kt.index, [])
@@ -187,7 +201,15 @@ def hyperv_file(chk: Check):
         itE = R.expr(init, tgt_loop.iter, init.cfg.node_of[tgt_loop], binds={"__exclude_loop__": tgt_loop})
         EE = ("iter", itE, None)
         # the entries linked are those of the first (highest sequence number) table of each index
-        act = itE[0] == "attr" and itE[2] == "entries" and itE[1][0] == "sub" and itE[1][2] == S.C(0)
+        def first_of_index(b):
+            """b is `<tables of an index>[0]`, directly or as a value of a dict {index: tables[0] for index, tables in key_tables.items()}"""
+            if b[0] == "sub" and b[2] == S.C(0):
+                return True
+            if b[0] == "iter" and b[2] is None and b[1][0] == "call" and b[1][1] == ".values" and b[1][2]:
+                d = b[1][2][0]
+                return d[0] == "comp" and d[1] == "dict" and d[2][0] == "tuple" and len(d[2][1]) == 2 and first_of_index(d[2][1][1]) and not d[4]
+            return False
+        act = itE[0] == "attr" and itE[2] == "entries" and first_of_index(itE[1])
         par_t, type_t = ("attr", EE, "parent"), ("attr", EE, "type")
         roles = {}
         for st_ in ast.walk(tgt_loop):
